@@ -21,7 +21,7 @@ COMPONENTS = dict(real=["hio.core.tcp.serving.Server/ServerTls/Remoter/RemoterTl
                   stub=["kernel sockets with open/closed accounting (FakeSocket)"])
 ASSUMPTIONS = ["a socket counts as released when close() was called on it (the fake kernel's descriptor table)"]
 PROBES = ["server_close_with_pending_handshake", "server_close_after_replacement", "server_close_with_established", "client_reopen_while_connected",
-          "same_address_replacement", "server_reopen", "tls_established_replaced_after_handshake", "server_reopen_bind_failed", "reconnectable_client"]
+          "same_address_replacement", "server_reopen", "tls_established_replaced_after_handshake", "server_reopen_bind_failed", "reconnectable_client", "small_listen_backlog"]
 BOUNDS = dict(quick=dict(ops=40, clients=3), thorough=dict(ops=120, clients=3))
 TIERS = dict(quick=dict(cases=30000, wall=60.0), thorough=dict(cases=1500000, wall=420.0))
 SIM_TIME_UNIT = "net steps"
@@ -35,8 +35,12 @@ def run_case(tape, tier):
     nops = 6 + tape.draw("nops", maxops - 5)
     hist = []
     tyme = [0.0]
+    # listen backlog: default, or smaller than the number of peers that connect between two service passes
+    bl = tape.pick("backlog", [128, 128, 1, 2])
+    if bl != 128:
+        res.probes["small_listen_backlog"] += 1
     with netlab.Lab(tape, res, tls=tls, bs=8096, rates=dict(inprogress=tape.pick("r_inprog", [0, 4])), wirelog=False,
-                    ports=(50001, 50002), tymth=lambda: tyme[0]) as lab:
+                    ports=(50001, 50002), tymth=lambda: tyme[0], server_kwa=dict(bl=bl)) as lab:
         net = lab.net
         lab.make_server()
         for _ in range(ncl):
